@@ -192,6 +192,13 @@ FileGone(c) ==
   /\ pc' = [pc EXCEPT ![c] = "trans"]
   /\ UNCHANGED <<dir, st, failR, abortR, bg, bgCancelled, holder, waitq, op, cap, isTask, ret, lastEdge, lst2, loaded>>
 
+\* the removal fails (OSError: permissions, the path is a directory, I/O error).  state.py:40-46
+\* logs it and goes on: the abort is an allowed operation and still happens; the file stays.
+FileFail(c) ==
+  /\ pc[c] = "rmfile"
+  /\ pc' = [pc EXCEPT ![c] = "trans"]
+  /\ UNCHANGED <<dir, st, file, failR, abortR, bg, bgCancelled, holder, waitq, op, cap, isTask, ret, lastEdge, lst2, loaded>>
+
 \* Transfer.transition (model.py:222-237): the new state is installed, then the listeners are
 \* awaited one after the other - the manager first, the application's listener behind it.
 \*   "none"  : the listener returns; return True + lock release in the same stretch
@@ -237,7 +244,7 @@ CancelInListener(c) ==
 Next ==
   \/ \E c \in Callers, o \in Ops, t \in BOOLEAN : Call(c, o, t)
   \/ \E c \in Callers : Acquire(c) \/ Refuse(c) \/ BodyStart(c) \/ TasksGone(c) \/ FileGone(c) \/ Transition(c)
-  \/ \E c \in Callers : ListenerDone(c) \/ CancelInListener(c)
+  \/ \E c \in Callers : ListenerDone(c) \/ CancelInListener(c) \/ FileFail(c)
   \/ Load
 
 Spec == Init /\ [][Next]_vars
